@@ -692,3 +692,97 @@ func (r *Run) RequireBranchDominatesCall(rule, fnRef, callee, name, condPat stri
 		r.Check(rule, fnRef+": "+name, r.P.Pos(cs.Pos()), found, "no branch on "+condPat+" dominates the call to "+callee)
 	}
 }
+
+// RequirePhiEdgeAllPaths: for every φ of fn that has an incoming edge whose value
+// renders as edgeVal, every acyclic path reaching that edge satisfies q.
+func (r *Run) RequirePhiEdgeAllPaths(rule string, fn *ssa.Function, edgeVal string, q Req) {
+	if fn == nil {
+		return
+	}
+	ff := r.P.Facts(fn)
+	n := 0
+	for _, b := range fn.Blocks {
+		for _, in := range b.Instrs {
+			phi, ok := in.(*ssa.Phi)
+			if !ok {
+				continue
+			}
+			for i, e := range phi.Edges {
+				if ff.Term(e) != edgeVal {
+					continue
+				}
+				n++
+				pred := b.Preds[i]
+				paths, okp := ff.PathFacts(pred, 2000)
+				edge := ff.edgeAtoms(pred, b)
+				good := okp && len(paths) > 0
+				detail := ""
+				for _, p := range paths {
+					if _, m := matchAny(q.Pats, append(append([]string{}, p...), edge...)); !m {
+						good = false
+						detail = "path: " + trunc(strings.Join(append(p, edge...), " ; "), 300)
+					}
+				}
+				r.Check(rule, FnName(fn)+": value "+trunc(edgeVal, 60)+" selected only when "+q.Name, r.P.Pos(ff.condPos(pred)), good, detail)
+			}
+		}
+	}
+	if n == 0 {
+		r.Fail(rule, FnName(fn)+": φ edge "+trunc(edgeVal, 60), r.P.Pos(fn.Pos()), "anchor-unresolved: no such φ edge")
+	}
+}
+
+// RequireAtCallAllPaths: every path to each call of callee in fn satisfies q.
+func (r *Run) RequireAtCallAllPaths(rule string, fn *ssa.Function, callee string, min int, q Req) {
+	if fn == nil {
+		return
+	}
+	ff := r.P.Facts(fn)
+	sites := r.CallSites(fn, callee)
+	if len(sites) < min {
+		r.Fail(rule, FnName(fn)+": calls "+callee, r.P.Pos(fn.Pos()), "anchor-unresolved")
+		return
+	}
+	for _, cs := range sites {
+		paths, okp := ff.PathFacts(cs.Block(), 4000)
+		good := okp && len(paths) > 0
+		detail := fmt.Sprintf("%d paths", len(paths))
+		for _, p := range paths {
+			if _, m := matchAny(q.Pats, p); !m {
+				good = false
+				detail = "a path reaches the call without " + q.Name + ": " + trunc(strings.Join(p, " ; "), 300)
+				break
+			}
+		}
+		r.Units["paths enumerated"] += len(paths)
+		r.Check(rule, FnName(fn)+" -> "+callee+": "+q.Name, r.P.Pos(cs.Pos()), good, detail)
+	}
+}
+
+// RequireAtCallFn: like RequireAtCall but on an already resolved function (closures).
+func (r *Run) RequireAtCallFn(rule string, fn *ssa.Function, callee string, min int, reqs ...Req) []ssa.CallInstruction {
+	if fn == nil {
+		return nil
+	}
+	ff := r.P.Facts(fn)
+	sites := r.CallSites(fn, callee)
+	if len(sites) < min {
+		r.Fail(rule, FnName(fn)+": calls "+callee, r.P.Pos(fn.Pos()), fmt.Sprintf("anchor-unresolved: expected >= %d call(s), found %d", min, len(sites)))
+		return sites
+	}
+	for _, cs := range sites {
+		var facts []string
+		for _, a := range ff.MustAt(cs) {
+			facts = append(facts, a.S)
+		}
+		for _, q := range reqs {
+			a, m := matchAny(q.Pats, facts)
+			d := "established by: " + trunc(a, 200)
+			if !m {
+				d = fmt.Sprintf("call to %s is reachable without %q", callee, q.Name)
+			}
+			r.Check(rule, FnName(fn)+" -> "+callee+": "+q.Name, r.P.Pos(cs.Pos()), m, d)
+		}
+	}
+	return sites
+}
